@@ -35,16 +35,20 @@ struct Profile {
     churn: bool,
     blocking: bool,
     caps: &'static [usize],
+    /// Percentage of calls that are abandoned by the client after a few scheduler turns.
+    cancel_pct: u32,
 }
 
 fn profile(name: &str) -> Profile {
     match name {
         // Data plane only: publishers, competing consumers, ackers, nackers.
-        "data" => Profile { clients: 4, ops: 14, streams: 1, churn: false, blocking: true, caps: &[1, 2, 16] },
+        "data" => Profile { clients: 4, ops: 14, streams: 1, churn: false, blocking: true, caps: &[1, 2, 16], cancel_pct: 6 },
+        // Competing consumers, many of which walk away from their pulls.
+        "consumers" => Profile { clients: 5, ops: 16, streams: 2, churn: false, blocking: true, caps: &[1, 2, 16], cancel_pct: 25 },
         // Control plane churn with data-plane traffic.
-        "churn" => Profile { clients: 4, ops: 12, streams: 1, churn: true, blocking: false, caps: &[1, 2, 16] },
+        "churn" => Profile { clients: 4, ops: 12, streams: 1, churn: true, blocking: false, caps: &[1, 2, 16], cancel_pct: 0 },
         // Everything.
-        _ => Profile { clients: 5, ops: 12, streams: 1, churn: true, blocking: true, caps: &[1, 2, 16] },
+        _ => Profile { clients: 5, ops: 12, streams: 1, churn: true, blocking: true, caps: &[1, 2, 16], cancel_pct: 5 },
     }
 }
 
@@ -82,6 +86,7 @@ pub async fn run(seed: u64, profile_name: &str, out: Option<Out>) -> Vec<Value> 
         let ops = p.ops;
         let churn = p.churn;
         let blocking = p.blocking;
+        let cancel_pct = p.cancel_pct;
         handles.push(tokio::spawn(async move {
             let mut published = 0usize;
             for _ in 0..ops {
@@ -147,7 +152,29 @@ pub async fn run(seed: u64, profile_name: &str, out: Option<Out>) -> Vec<Value> 
                 } else {
                     CallSpec::ListTopics { project: "projects/p1".into(), size: 0, token: String::new() }
                 };
-                let _ = exec(Arc::clone(&world), c, call).await;
+                // Data-plane calls may be abandoned by their client at an arbitrary scheduler turn.
+                let abandon = matches!(call, CallSpec::Pull { .. } | CallSpec::Ack { .. } | CallSpec::ModAck { .. } | CallSpec::Publish { .. })
+                    && rng.gen_range(0..100) < cancel_pct;
+                if abandon {
+                    let handle = tokio::spawn({
+                        let world = Arc::clone(&world);
+                        async move {
+                            let _ = exec(world, c, call).await;
+                        }
+                    });
+                    for _ in 0..rng.gen_range(0..10) {
+                        tokio::task::yield_now().await;
+                    }
+                    if !handle.is_finished() {
+                        handle.abort();
+                        let _ = handle.await;
+                        world.ev("cancel", json!({"c": c}));
+                    } else {
+                        let _ = handle.await;
+                    }
+                } else {
+                    let _ = exec(Arc::clone(&world), c, call).await;
+                }
             }
         }));
     }
